@@ -24,7 +24,7 @@ func init() {
 			"Sacramento is chained step-by-step only with the no-lag unit hydrograph (its UH buffer is not a state: known finding of C06); lagged UHs are checked on whole runs",
 		},
 		Workloads: []core.Workload{
-			{Name: "rr", Variant: "plain", N: core.Tiered(5*60, 5*2000), Run: c10Case},
+			{Name: "rr", Variant: "plain", N: core.Tiered(5*60, 5*6000), Run: c10Case},
 		},
 		RequireTags: func(string) []string { return []string{"GR4J:closure", "Sacramento:chained", "Sacramento:whole-lagged"} },
 	})
